@@ -415,6 +415,49 @@ impl Check for C08 {
             if idx % 4 == 0 && !rec.has_violation() {
                 self.check_tree(ctx, &mut rng, rec, &tree, false, "exhaustive-small");
             }
+        } else if idx % 400 == 399 {
+            // a tiny but non-zero bare number (a literal with 25-28 decimals, or a quotient of two
+            // large numbers) is a non-zero bare number wherever an amount is required
+            let lit = |m: i128, s: u32, c: &str| expr::Unary { neg: false, value: Value::Leaf(crate::gen::ledger::Amt::new(m, s, c)) };
+            let tree = match rng.below(3) {
+                0 => Value::Leaf(crate::gen::ledger::Amt::new(1 + rng.below(9) as i128, 25 + rng.below(4) as u32, "")),
+                1 => Value::Paren(Box::new(expr::AddExpr {
+                    first: expr::MulExpr { first: lit(1, 0, ""), rest: vec![(Op::Div, lit(4_000_000_000_000, 0, "")), (Op::Div, lit(4_000_000_000_000, 0, ""))] },
+                    rest: vec![],
+                })),
+                _ => Value::Paren(Box::new(expr::AddExpr {
+                    first: expr::MulExpr { first: lit(1, 26, ""), rest: vec![(Op::Div, lit(8, 0, ""))] },
+                    rest: vec![(Op::Add, expr::MulExpr { first: lit(0, 0, ""), rest: vec![] })],
+                })),
+            };
+            self.check_tree(ctx, &mut rng, rec, &tree, true, "tiny-bare-number");
+        } else if idx % 400 == 398 {
+            // a product beyond the representable range has no value: okane may stop (outside every
+            // property) or report an error, but it cannot come back with a number
+            let a = 10_000_000_000_000_000u128 + rng.below(80_000_000_000_000_000) as u128;
+            let b = 8_000_000_000_000_000u128 + rng.below(1_000_000_000_000_000) as u128;
+            let text = if rng.chance(1, 2) { format!("({} USD * {})", a, b) } else { format!("({} * {} USD)", b, a) };
+            rec.op("Ledger::eval (product beyond the decimal range)", &text);
+            rec.nontrivial(&text);
+            let files = vec![(ops::ROOT.to_string(), DECLS.to_string())];
+            let t2 = text.clone();
+            let before = rec.excuse_decimal_overflow;
+            rec.excuse_decimal_overflow = true;
+            let got = guarded(rec, || {
+                ops::with_processed(&files, ops::ROOT, None, |rctx, r| match r {
+                    Err(e) => Err(format!("process failed: {}", e)),
+                    Ok(l) => l
+                        .eval(rctx, &t2, &query::EvalContext { date: chrono::NaiveDate::from_ymd_opt(2024, 1, 1).unwrap(), exchange: None })
+                        .map(|a| multi_to_string(&to_multi(&a)))
+                        .map_err(|e| ops::render_error(&e)),
+                })
+            });
+            rec.excuse_decimal_overflow = before;
+            match got {
+                Some(Ok(v)) => rec.violation("overflowing-product-yields-a-value", "eval", &format!("`{}` (about {:.1e}) evaluated to {}", text, a as f64 * b as f64, v), json!({"expression": text, "observed": v})),
+                Some(Err(_)) => rec.count("beyond-range:rejected"),
+                None => rec.count("beyond-range:stopped"),
+            }
         } else {
             let tree = expr::random_tree(&mut rng);
             let spaced = rng.chance(2, 3);
@@ -428,7 +471,7 @@ impl Check for C08 {
              leaves over 17 values x {{bare, USD, EUR, JPY}}, literals with their own minus sign, operators rendered ` op `, `op`, ` op`, `op ` at random. \
              Each expression is used as Ledger::eval argument, posting amount (sibling must receive the negation), cost `@`/`@@` on 10 AAPL (sibling must \
              receive -(10*rate) / -total), balance assertion (true on its value, false one unit off), lot price (plain amounts only), and a sample through \
-             `okane primitive eval`. Oracle: harness/src/model/expr.rs (exact rationals, left fold, commodity typing; three-valued). Values are compared \
+             `okane primitive eval`. One case in 400 is a tiny non-zero bare number (must be rejected where an amount is required), one in 400 a product beyond the decimal range (must not come back with a value). Oracle: harness/src/model/expr.rs (exact rationals, left fold, commodity typing; three-valued). Values are compared \
              exactly unless an intermediate result is not representable as a 96-bit/28-place decimal (then within sixteen times the error bound the model derives for a 28-place decimal evaluator, plus 1e-27 relative). Non-trivial = expression with a \
              specified outcome; distinct by text.",
             n = expr::N_EXHAUSTIVE
